@@ -12,6 +12,7 @@ package roregexp
 //@   binds v pattern
 //@   calls Match
 //@   params v
+//@   scope pattern v
 //@   maypanic
 //@   track call.*
 //@   ensures [calls-the-wrapped-function-once|C18] count(call.ANY) == 1 && called(call.Regexp.Match)
@@ -23,6 +24,7 @@ package roregexp
 //@   binds v pattern
 //@   calls MatchString
 //@   params v
+//@   scope pattern v
 //@   maypanic
 //@   track call.*
 //@   ensures [calls-the-wrapped-function-once|C18] count(call.ANY) == 1 && called(call.Regexp.MatchString)
@@ -34,6 +36,7 @@ package roregexp
 //@   binds v pattern
 //@   calls Find
 //@   params v
+//@   scope pattern v
 //@   maypanic
 //@   track call.*
 //@   ensures [calls-the-wrapped-function-once|C18] count(call.ANY) == 1 && called(call.Regexp.Find)
@@ -45,6 +48,7 @@ package roregexp
 //@   binds v pattern n
 //@   calls FindAll
 //@   params v
+//@   scope n pattern v
 //@   maypanic
 //@   track call.*
 //@   ensures [calls-the-wrapped-function-once|C18] count(call.ANY) == 1 && called(call.Regexp.FindAll)
@@ -56,6 +60,7 @@ package roregexp
 //@   binds v pattern n
 //@   calls FindAllString
 //@   params v
+//@   scope n pattern v
 //@   maypanic
 //@   track call.*
 //@   ensures [calls-the-wrapped-function-once|C18] count(call.ANY) == 1 && called(call.Regexp.FindAllString)
@@ -67,6 +72,7 @@ package roregexp
 //@   binds v pattern n
 //@   calls FindAllStringSubmatch
 //@   params v
+//@   scope n pattern v
 //@   maypanic
 //@   track call.*
 //@   ensures [calls-the-wrapped-function-once|C18] count(call.ANY) == 1 && called(call.Regexp.FindAllStringSubmatch)
@@ -78,6 +84,7 @@ package roregexp
 //@   binds v pattern n
 //@   calls FindAllSubmatch
 //@   params v
+//@   scope n pattern v
 //@   maypanic
 //@   track call.*
 //@   ensures [calls-the-wrapped-function-once|C18] count(call.ANY) == 1 && called(call.Regexp.FindAllSubmatch)
@@ -89,6 +96,7 @@ package roregexp
 //@   binds v pattern
 //@   calls FindString
 //@   params v
+//@   scope pattern v
 //@   maypanic
 //@   track call.*
 //@   ensures [calls-the-wrapped-function-once|C18] count(call.ANY) == 1 && called(call.Regexp.FindString)
@@ -100,6 +108,7 @@ package roregexp
 //@   binds v pattern
 //@   calls FindStringSubmatch
 //@   params v
+//@   scope pattern v
 //@   maypanic
 //@   track call.*
 //@   ensures [calls-the-wrapped-function-once|C18] count(call.ANY) == 1 && called(call.Regexp.FindStringSubmatch)
@@ -111,6 +120,7 @@ package roregexp
 //@   binds v pattern
 //@   calls FindSubmatch
 //@   params v
+//@   scope pattern v
 //@   maypanic
 //@   track call.*
 //@   ensures [calls-the-wrapped-function-once|C18] count(call.ANY) == 1 && called(call.Regexp.FindSubmatch)
@@ -122,6 +132,7 @@ package roregexp
 //@   binds v pattern
 //@   calls Match
 //@   params v
+//@   scope pattern v
 //@   maypanic
 //@   track call.*
 //@   ensures [calls-the-wrapped-function-once|C18] count(call.ANY) == 1 && called(call.Regexp.Match)
@@ -133,6 +144,7 @@ package roregexp
 //@   binds v pattern
 //@   calls MatchString
 //@   params v
+//@   scope pattern v
 //@   maypanic
 //@   track call.*
 //@   ensures [calls-the-wrapped-function-once|C18] count(call.ANY) == 1 && called(call.Regexp.MatchString)
@@ -144,6 +156,7 @@ package roregexp
 //@   binds v pattern repl
 //@   calls ReplaceAll
 //@   params v
+//@   scope pattern repl v
 //@   maypanic
 //@   track call.*
 //@   ensures [calls-the-wrapped-function-once|C18] count(call.ANY) == 1 && called(call.Regexp.ReplaceAll)
@@ -155,6 +168,7 @@ package roregexp
 //@   binds v pattern repl
 //@   calls ReplaceAllString
 //@   params v
+//@   scope pattern repl v
 //@   maypanic
 //@   track call.*
 //@   ensures [calls-the-wrapped-function-once|C18] count(call.ANY) == 1 && called(call.Regexp.ReplaceAllString)
